@@ -74,6 +74,9 @@ def main():
             sh("mkdir -p %s && rsync -a --exclude target --exclude logs --exclude replays --exclude .git --exclude evidence --exclude seeded %s/ %s/" % (verif, VERIF, verif))
         else:
             sh("mkdir -p %s && git -C %s archive HEAD | tar -x -C %s && rm -rf %s/seeded %s/evidence %s/mutants" % (verif, VERIF, verif, verif, verif, verif))
+        # the harness depends on /repo by absolute path: point this copy at the mutated worktree
+        ct = os.path.join(verif, "harness", "Cargo.toml")
+        open(ct, "w").write(open(ct).read().replace('path = "/repo"', 'path = "%s"' % repo))
         sh("mkdir -p %s/harness/target && cp -a %s/harness/target/ship %s/harness/target/chk %s/harness/target/ 2>/dev/null" % (verif, VERIF, VERIF, verif))
         for pid in ids:
             t0 = time.time()
